@@ -75,6 +75,12 @@ CHECKS = {
              "schemas give equal verdicts on a symbolic probe (discrimination in contrapositive form), and "
              "schema == value iff the value validates.",
         design="4/C15"),
+    "C06": dict(
+        text="Menu-bounded exhaustive enumeration driven by the solver: presence flags, len-form selectors and menu "
+             "indices are symbolic, CrossHair+z3 enumerate the finite product and confirm on every member that the real "
+             "Representor's text evaluates to an equal schema with the same text. (eval is a C boundary: values cannot "
+             "stay symbolic here, which is stated - the solver is used as an exhaustive enumerator.)",
+        design="4/C06"),
     "C07": dict(
         text="Inductive step decided by bounded symbolic execution: from a pool of schemas with symbolic parameters one "
              "public operation with symbolic arguments runs; the solver must confirm on all paths that the deep "
